@@ -397,7 +397,9 @@ def withinUlp (n : Nat) (a b : String) : Bool :=
     a.length = 16 && b.length = 16 && !isNaNBits x && !isNaNBits y && (ordBits x - ordBits y).natAbs ≤ n
   | _, _ => false
 
-def normVal (v : String) : String := if valIsNaN v then "nan" else v
+/-- Values as the k-selection compares them: all NaNs alike, and `-0 = +0` (a tie between the two is a tie). -/
+def normVal (v : String) : String :=
+  if valIsNaN v then "nan" else if v = "8000000000000000" then "0000000000000000" else v
 
 def sortedVals (x : Step) : List String := (x.map fun e => normVal e.2).mergeSort (fun a b => a ≤ b)
 
